@@ -5,3 +5,19 @@ CHECKS = {
          "Trusts ref/rsm3 (validated on the GM/T 0004 example digests at every run), crypto/hmac and x/crypto/pbkdf2 as the standard constructions.",
          "DESIGN.md §5 C04"),
 }
+CHECKS["C05"] = ("property-based testing (rapid) + exhaustive S-box sweep: differential against an independent GM/T 0002 implementation; stateful histories on one cipher object",
+  "Generated-input search: random/single-bit/constant keys and blocks, a complete sweep of every byte value through every S-box lane of the first and last round and every plaintext byte position, rapid state-machine histories of Encrypt/Decrypt with disjoint/in-place/adjacent buffers on one object (each call compared with a fresh reference, so history dependence shows), key lengths 0..64. Exploration: no counterexample in the explored space.",
+  "Trusts ref/rsm4 (byte S-box typed from the standard, validated on the single-block and 1,000,000-iteration vectors).",
+  "DESIGN.md §5 C05")
+CHECKS["C11"] = ("property-based testing (rapid) + exhaustive length sweep: differential against crypto/cipher modes over an independent SM4, round-trip, canary bytes behind caller slices",
+  "Every plaintext length 0..80 (quick) / 0..1024 (thorough) x 4 modes x spare capacities, plus random keys/IVs/pad-looking tails; ciphertext compared byte-for-byte with ECB/CBC/CFB/OFB of the Go standard library over ref/rsm4 on my own PKCS#7 pad; decrypt inverts; caller slices and canaries intact; bad key/IV sizes refused. Exploration.",
+  "Trusts ref/rsm4 and crypto/cipher's mode implementations; assumes serial use of the process-wide sm4.IV.",
+  "DESIGN.md §5 C11")
+CHECKS["C12"] = ("property-based testing (rapid) + exhaustive (plaintext,AAD) length grid + exhaustive single-bit tampering: differential against a bitwise SP 800-38D GCM and against crypto/cipher GCM over sm4.NewCipher",
+  "Lengths grid 0..34 (quick) / 0..80 (thorough) for plaintext x AAD, IV lengths 1..64 incl. 0xff tails, algebraically constructed IVs whose J0 wraps the 32-bit counter inside the message, tight-capacity slices and canaries; every single bit of IV/AAD/ciphertext/tag flipped on small cases. Exploration.",
+  "Trusts ref/rgcm (validated against crypto/cipher GCM over AES for nonce sizes 1..40) and ref/rsm4.",
+  "DESIGN.md §5 C12")
+CHECKS["C19"] = ("property-based testing (rapid) with scripted io.Reader fault/chunk plans + exhaustive length sweep: model-based (byte-slice model) and differential against CBC over independent SM4",
+  "Source lengths 0..600 (quick) / 0..5000 (thorough) x block sizes 8/16 x reader behaviours (1-byte, short non-EOF, zero-byte, data+EOF, mid-stream error) x caller buffer sizes x write-size sequences up to 8192 x every invalid final-block pattern; P7BlockEnc/Decrypt with SM4-CBC and DES-CBC. Exploration.",
+  "Trusts ref/rsm4, crypto/des and crypto/cipher CBC. Infinite (0,nil) sources are outside the domain (io.Reader contract).",
+  "DESIGN.md §5 C19")
